@@ -343,6 +343,11 @@ def call_method(interp, base, name, node, args, kwargs, st):
         if name in ("update", "clear", "setdefault", "__setitem__"):
             interp.emit(st, "write", node, loc=(base.base.obj.oid, "__dict__"), objcls=base.base.obj.cls,
                         mode="inplace", op="call:" + name, sub=None, rhs=args[0] if args else Val(), cur=None, result=None)
+        if name == "get" and args and args[0].has_const() and isinstance(args[0].const, str) and base.base is not None and base.base.obj is not None:
+            # self.__dict__.get("x"[, default]) reads the instance attribute x (or the default when it is absent)
+            v = interp.read_field(base.base, args[0].const, st, node)
+            dflt = args[1] if len(args) > 1 else vconst(None)
+            return join_vals(v, dflt)
         return Val()
     if name in MUTATING_METHODS and base.kind not in ("str",):
         fnode0 = node.func.value if isinstance(node.func, ast.Attribute) else None
